@@ -528,7 +528,10 @@ func clauseCountSweep(w *h.W, fam string) {
 
 // F8: predicates whose clauses stand in several runs of every length (discontiguous/1), with other predicates of
 // every size between the runs: each predicate answers with exactly its own clauses, in text order.
-func c01F8(w *h.W) {
+func c01F8(w *h.W) { discontiguousRuns(w, "F8") }
+
+// discontiguousRuns is shared with C10 (there: the loaded text against the same clauses asserted).
+func discontiguousRuns(w *h.W, fam string) {
 	maxRun := w.Pick(17, 34)
 	for k := 1; k <= maxRun; k++ {
 		for m := 1; m <= 3; m++ {
@@ -552,7 +555,7 @@ func c01F8(w *h.W) {
 				}
 				cls = append(cls, rd("s(X, Y) :- p(X), q(Y, _)"), rd("p(last)"))
 				pc := &h.ProgCase{Steps: []h.ProgStep{h.Consult(cls...), h.Query(rd("p(X)"), 80), h.Query(rd("q(I, X)"), 20), h.Query(rd("r(X)"), 5), h.Query(rd("s(X, Y)"), 200), h.Query(rd("q(0, a)"), 3)}}
-				runProgCase(w, "F8", pc, k+m+second)
+				runProgCase(w, fam, pc, k+m+second)
 			}
 		}
 	}
